@@ -8,7 +8,14 @@ for f in sys.argv[1:]:
     for l in open(f):
         m = re.match(r'\| (C\d\d)-(\d+)', l)
         if m:
-            rows[(m.group(1), int(m.group(2)))] = l.rstrip('\n')
+            k = (m.group(1), int(m.group(2)))
+            # a run that was killed (exit 143) is no result; a 'yes' obtained after a check was
+            # strengthened is not overwritten by the earlier 'NO' of another pass
+            if '| 143 |' in l:
+                continue
+            if k in rows and '| yes' in rows[k] and '| NO |' in l:
+                continue
+            rows[k] = l.rstrip('\n')
 out = ["# Seeded changes vs checks (tier: quick)", "",
  "Each change compiles, passes the unchanged 220-test suite, and breaks the named property",
  "(confirmed with its demo in a scratch worktree, see <id>/confirm.log). 'rebased' = the patch",
@@ -21,6 +28,10 @@ out = ["# Seeded changes vs checks (tier: quick)", "",
 custom = {
  ('C03', 16): "| C03-16 | C03 | yes, after adapting the harness | 2 -> 1 | adds a REQUIRED method to the public trait fri::ProverChannel: the harness' recording channel (like every downstream implementor) stops compiling = HARNESS-ERROR (exit 2); with that method implemented in a scratch copy: C03/adaptive/modified-proof-accepted A1-remainder-plus-vanishing; C04/prover-transcript-order expected reseed(FRI remainder commitment); C05/far-function-accepted-with-a-commitment-made-after-the-queries |",
 }
+via = "run against /repo itself with tools/try_mutant.sh after the check had been strengthened (DESIGN.md section 9)"
+custom[('C12', 16)] = f"| C12-16 | C12 | yes | 1 | C12/OodFrame(boundary members)/SliceReader/decode-error UnexpectedEOF;C12/OodFrame(boundary members)/SliceReader/value-differs; {via} |"
+custom[('C14', 15)] = f"| C14-15 | C14 | yes | 1 | C14/math-utils/get_power_series-differs;C14/math-utils/get_power_series_with_offset-differs; {via} |"
+custom[('C19', 18)] = f"| C19-18 | C19 | yes | 1 | C19/scripted/non-canonical-element-drawn quad<f128>; {via} |"
 for k, v in custom.items():
     rows[k] = v
 # changes that were not re-run against the harness of this session
